@@ -6,6 +6,7 @@ from jaqalpaq.core.gatedef import AbstractGate, GateDefinition
 from jaqalpaq.core.algorithm.expand_subcircuits import SubcircuitExpander
 from jaqalpaq.error import JaqalError
 from jaqalpaq.core.circuit import Circuit
+from jaqalpaq.core.macro import Macro
 
 
 @spec
@@ -15,6 +16,7 @@ def wf_stmt(o) -> bool:
         return isinstance(o._statements, BlockStatement) and wf_stmt(o._statements)
     if isinstance(o, BlockStatement):
         return (isinstance(o._statements, list) and is_bool(o._parallel) and is_bool(o._subcircuit)
+                and (o._subcircuit or same(o._iterations, 1))       # the constructor rejects anything else
                 and forall_range(len(o._statements), lambda k: wf_stmt(o._statements[k])))
     return isinstance(o, GateStatement) and isinstance(o._parameters, dict) and isinstance(o._gate_def, AbstractGate)
 
@@ -39,13 +41,21 @@ def xsub(o, r, pd, md) -> bool:
         return (type_is(r, BlockStatement) and r._parallel == o._parallel and not r._subcircuit and r._iterations == 1
                 and isinstance(r._statements, list) and len(r._statements) == len(o._statements)
                 and forall_range(len(o._statements), lambda k: xsub(o._statements[k], r._statements[k], pd, md)))
-    return same(r, o)
+    return same(r, o) or rebound(o, r)
+
+
+@spec
+def rebound(o, r) -> bool:
+    """r is a macro call o re-targeted: a gate statement with the very same arguments (which definition it calls
+    is pinned by XGate.ensures_rebound: the rebuilt macro stored under the call's name)"""
+    return isinstance(o, GateStatement) and isinstance(o._gate_def, Macro) and type_is(r, GateStatement) and same(r._parameters, o._parameters)
 
 
 @spec
 def wf_expander(v) -> bool:
     return (type_is(v, SubcircuitExpander) and isinstance(v.prepare_def, AbstractGate) and isinstance(v.measure_def, AbstractGate)
-            and len(v.prepare_def._parameters) == 0 and len(v.measure_def._parameters) == 0)
+            and len(v.prepare_def._parameters) == 0 and len(v.measure_def._parameters) == 0
+            and isinstance(v.macros, dict))
 
 
 @assumed("core.gatedef:AbstractGate.__call__", props=["C09"])
@@ -68,6 +78,29 @@ class XDefault:
 
     def ensures(self, obj, result):
         return xsub(obj, result, self.prepare_def, self.measure_def)
+
+    raises_only = ()
+
+
+@contract("core.algorithm.expand_subcircuits:SubcircuitExpander.visit_GateStatement", props=["C09", "C10", "C11"])
+class XGate:
+    """a call keeps its name and its arguments; a macro call is re-targeted at the rebuilt macro of that name,
+    so the call and the circuit's macro table agree (C10: expand_macros afterwards sees the expanded body
+    whichever definition it follows)"""
+
+    def requires(self, gate):
+        return (wf_expander(self) and type_is(gate, GateStatement) and isinstance(gate._parameters, dict) and isinstance(gate._gate_def, AbstractGate))
+
+    def ensures(self, gate, result):
+        return xsub(gate, result, self.prepare_def, self.measure_def)
+
+    def ensures_rebound(self, gate, result):
+        return implies(isinstance(gate._gate_def, Macro) and has_key(self.macros, gate._gate_def._name),
+                       type_is(result, GateStatement) and same(result._gate_def, dict_lookup(self.macros, gate._gate_def._name))
+                       and same(result._parameters, gate._parameters))
+
+    def ensures_native(self, gate, result):
+        return implies(not isinstance(gate._gate_def, Macro), same(result, gate))
 
     raises_only = ()
 
